@@ -860,3 +860,90 @@ def program_c18(rnd):
     mod += top
     mod.append(Print(Str("end")))
     return Module(mod)
+
+
+# ======================================================================================================
+# C17: modules
+def program_c17(rnd):
+    k = rnd.randint(1, 4)
+    names = [f"m{i}" for i in range(1, k + 1)]
+    mods = {}
+    exports = {}
+    for idx, name in enumerate(names):
+        body = [Print(Str(f"run {name}"))]
+        # imports of earlier modules (acyclic), before or after own definitions
+        deps = [d for d in names[:idx] if rnd.random() < 0.5]
+        imp = []
+        for d in deps:
+            form = rnd.choice(["whole", "as", "syms"])
+            if form == "whole":
+                imp.append((ImportWhole(d), [Print(Str(f"{name} sees"), Prop(Var(d), "v"), Invoke(Var(d), "inc", []))]))
+            elif form == "as":
+                al = f"al_{d}"
+                imp.append((ImportWhole(d, al), [Print(Str(f"{name} sees"), Invoke(Var(al), "get", []))]))
+            else:
+                al = f"inc_{d}"
+                imp.append((ImportSyms(d, [("inc", al), ("v", f"v_{d}")]), [Print(Str(f"{name} sees"), Call(Var(al), []), Var(f"v_{d}"))]))
+        first = rnd.random() < 0.5
+        if first:
+            for st, use in imp:
+                body.append(st)
+                body += use
+        body.append(Let("n", Num(idx * 100)))
+        body.append(Let("secret", Str("s-" + name)))
+        body.append(Export(Let("v", Num(idx + 1))))
+        body.append(Export(Fn("inc", [], Block([ExprSt(Assign("n", Bin("+", Var("n"), Num(1)))), Return(Var("n"))]))))
+        body.append(Export(Fn("get", [], Block([Return(Var("n"))]))))
+        body.append(Fn("hidden", [], Block([Return(Str("hidden"))])))
+        body.append(Export(Class("C", None, [Fn("who", [], Block([Return(Bin("+", Str(name + ".C "), Var("secret")))]), "method")])))
+        if not first:
+            for st, use in imp:
+                body.append(st)
+                body += use
+        body.append(Print(Str(f"done {name}"), Var("n")))
+        mods[name] = Module(body)
+        exports[name] = ["v", "inc", "get", "C"]
+    main = [Print(Str("main start"))]
+    count = rnd.randint(1, 5)
+    used = 0
+    for _ in range(count):
+        d = rnd.choice(names)
+        used += 1
+        form = rnd.choice(["whole", "as", "syms", "syms"])
+        if form == "whole":
+            al = d
+            if any(st["k"] == "import" and st["fields"] and st["fields"][0] == al and st["s2"] != "syms" for st in main):
+                form = "as"
+            else:
+                main.append(ImportWhole(d))
+        if form == "as":
+            al = f"a{used}_{d}"
+            main.append(ImportWhole(d, al))
+        if form in ("whole", "as"):
+            main.append(Print(Str("v"), Prop(Var(al), "v"), Str("inc"), Invoke(Var(al), "inc", []), Str("get"), Invoke(Var(al), "get", [])))
+            main.append(Print(Invoke(Call(Prop(Var(al), "C"), []), "who", [])))
+            if rnd.random() < 0.3:
+                e = f"e{used}"
+                main.append(Try(Block([Print(Prop(Var(al), rnd.choice(["secret", "hidden", "n"])))]), [Catch(e, "Error", Block([Print(Str("private"))]))]))
+        else:
+            picks = rnd.sample(exports[d], rnd.randint(1, 3))
+            pairs = [(p, f"{p}{used}_{d}") if rnd.random() < 0.7 else (p, f"{p}{used}x") for p in picks]
+            main.append(ImportSyms(d, pairs))
+            for p, al in pairs:
+                if p in ("inc", "get"):
+                    main.append(Print(Str(p), Call(Var(al), [])))
+                elif p == "v":
+                    main.append(Print(Str("v"), Var(al)))
+                else:
+                    main.append(Print(Invoke(Call(Var(al), []), "who", [])))
+    # at most one failing import, last
+    c = rnd.random()
+    if c < 0.15:
+        main.append(ImportSyms(rnd.choice(names), [(rnd.choice(["secret", "hidden", "n", "nothing"]), "bad")]))
+    elif c < 0.30:
+        main.append(ImportWhole("nope") if rnd.random() < 0.5 else ImportSyms("nope", [("v", "vv")]))
+    elif c < 0.40:
+        mods["broken"] = 'print("broken runs");\nexport let v = 1;\nlet = ;\n'
+        main.append(ImportWhole("broken") if rnd.random() < 0.5 else ImportSyms("broken", [("v", "bv")]))
+    main.append(Print(Str("main end")))
+    return {"main": Module(main), "mods": mods}
